@@ -57,12 +57,14 @@
                                                    (the reader's sections straddle the purge): reply of neither order
      C10_reader_add_reply_not_linearizable         get_subscription_info || add of the same user: balance after the charge,
                                                    locators before the store: reply of neither order
+     C10_reader_block_reply_not_linearizable       get || a block without purge (it expires the subscription and carries the
+                                                   dispute): expiry test before, tables after: reply of neither order
    Hence `get || anything` is settled: state and the other thread's reply always (C10_writer_among_readers_runs_alone);
    the reader's own reply is that of a sequential order against a disconnection, a registration, readers and - for
    get_appointment - add_appointment off the trigger path (proved), NOT against add_appointment on the trigger path, the
-   purge, nor - for get_subscription_info - an add_appointment of the same user (refuted); against a block without
-   purge it is OPEN (the exploration finds no reply of neither order there; C10_reader_against_one_thread reduces it
-   to the block's solo states).
+   purge, a block that changes two things the reader looks at in different critical sections (height and tables), nor -
+   for get_subscription_info - an add_appointment of the same user (refuted).  What remains OPEN for readers: a block
+   that changes only one of the two (C10_reader_against_one_thread reduces it to the block's solo states).
    OPEN (no proof, no counterexample; the exhaustive controlled exploration of the check finds every final
    state of these pairs equal to a sequential order within its preemption bound, up to the height stamps):
      register || add, add || add (different appointment), add || disconnect,
@@ -583,6 +585,16 @@ Theorem C10_reader_add_reply_not_linearizable :
     [Some (TOut (OAddRes (AddOk 120 1 9 520))); Some (TOut (OSubRes (SubOk 10 520 [])))].
 Proof. exact reader_sees_the_charge_before_the_appointment. Qed.
 
+(* get_appointment || a block WITHOUT purge: the block at whose height the reader's subscription expires, carrying the
+   dispute of its appointment.  The expiry test is passed before the gatekeeper's part of the block, the tables are read
+   after the watcher's: "tracker" - before the block the reader is told the appointment, after it "subscription expired" *)
+Theorem C10_reader_block_reply_not_linearizable :
+  let ps := [get_p (Some 1) 7; w_connect_expiry_dispute] in
+  snd (run_sched w_exp ps w_get_across_block) = [Some (TOut (OGetRes (GetTrk 7 107))); Some (TOut OBlockRes)] /\
+  snd (run_sched w_exp ps (in_order [0; 1]%nat)) = [Some (TOut (OGetRes (GetApp 7 w_blob 20))); Some (TOut OBlockRes)] /\
+  snd (run_sched w_exp ps (in_order [1; 0]%nat)) = [Some (TOut (OGetRes (GetExpired 122))); Some (TOut OBlockRes)].
+Proof. exact reader_straddles_the_expiring_block. Qed.
+
 (* add_appointment || the block with its dispute is NOT linearizable in the height stamps (start_block 120
    next to a tracker stamped 121; the orders give 120/120 and 121/121) — while C10_no_missed_breach holds *)
 Theorem C10_add_connect_not_linearizable :
@@ -620,6 +632,7 @@ Print Assumptions C10_writer_among_readers_runs_alone.
 Print Assumptions C10_reader_reply_not_linearizable.
 Print Assumptions C10_reader_purge_reply_not_linearizable.
 Print Assumptions C10_reader_add_reply_not_linearizable.
+Print Assumptions C10_reader_block_reply_not_linearizable.
 Print Assumptions C10_no_missed_breach_refined.
 Print Assumptions C10_get_disconnect_linearizable.
 Print Assumptions C10_getsub_disconnect_linearizable.
